@@ -7,7 +7,8 @@ handed it - argv from /proc/self/cmdline, the environment from
 `rec.<pid>.json` NEXT TO THE PATH IT WAS STARTED AS (argv[0]; the harness gives
 every configured server its own directory holding a symlink to this file), then
 speaks just enough MCP over stdio NDJSON for the handshake to complete.
-A link whose basename starts with "refuse" answers initialize with an error.
+A link whose basename starts with "refuse" answers initialize with an error; one starting with "chatty" first writes
+400 KiB of start-up output to stderr.
 Nothing here is under test; the harness is the only reader of the records."""
 import json
 import os
@@ -37,6 +38,15 @@ def main():
 
     flush()
     refuse = os.path.basename(me).startswith(b"refuse")
+    if os.path.basename(me).startswith(b"chatty"):
+        # a talkative server: 400 KiB of start-up output on stderr before it reads its first request
+        try:
+            for _ in range(100):
+                os.write(2, b"[chatty witness] starting up ... " + b"." * 4062 + b"\n")
+        except OSError:
+            pass
+        rec["events"].append("<start-up output written>")
+        flush()
     stdin = sys.stdin.buffer
     out = sys.stdout.buffer
 
